@@ -202,6 +202,8 @@ func init() {
 		"default":           func(parent chainnodeAlias) Node { return parent.Default() },
 		"combine":           func(parent chainnodeAlias) Node { return parent.Combine(nil) },
 		"alert":             func(parent chainnodeAlias) Node { return parent.Alert() },
+		"barrier":           func(parent chainnodeAlias) Node { return parent.Barrier() },
+		"trickle":           func(parent chainnodeAlias) Node { return parent.Trickle() },
 	}
 
 	multiParents = map[string]func(chainnodeAlias, []Node) Node{
@@ -527,6 +529,7 @@ func isChainNode(node Node) (chainnodeAlias, bool) {
 // chainnodeAlias is used to check for the presence of a chain node
 type chainnodeAlias interface {
 	Alert() *AlertNode
+	Barrier() *BarrierNode
 	Bottom(int64, string, ...string) *InfluxQLNode
 	Children() []Node
 	Combine(...*ast.LambdaNode) *CombineNode
@@ -577,6 +580,7 @@ type chainnodeAlias interface {
 	Sum(string) *InfluxQLNode
 	SwarmAutoscale() *SwarmAutoscaleNode
 	Top(int64, string, ...string) *InfluxQLNode
+	Trickle() *TrickleNode
 	Union(...Node) *UnionNode
 	Wants() EdgeType
 	Window() *WindowNode
